@@ -172,7 +172,10 @@ theorem redact_content_eq_spec (v : Nat) (o res : Obj) (ty : Str) (c : Obj)
     rw [redactContent_eq_spec v ty c c' hred]
 
 /-- The content-only entry point agrees with what `redact` does to `content`
-(`redact_content_in_place` vs `redact`), by construction of the model; stated for the record. -/
+(`redact_content_in_place` vs `redact`). True by construction of the model (`redact` calls
+`redactContent`; the copying `redact` and `redact_in_place` are one model function), stated for the
+record: that the three Rust entry points agree is checked by the differential correspondence (T2:
+every random event goes through all three) and not by this theorem. -/
 theorem entry_points_agree (r : Rules) (o res : Obj) (ty : Str) (c : Obj)
     (h : redact r o none = .ok res)
     (hty : Obj.get o (bs "type") = some (.str ty)) (hc : Obj.get o (bs "content") = some (.obj c)) :
@@ -231,9 +234,10 @@ theorem redact_because (r : Rules) (o : Obj) (b : Obj) :
     | _ => rfl
 
 /-- **Errors are exactly the documented shape errors**: `type` missing or not a string, `content`
-present but not an object, or (only where the rules keep `third_party_invite.signed`, i.e. v11)
-a non-object `third_party_invite` in an `m.room.member` content (the only way `redactContent`
-fails, see `redactContent_error_iff`). -/
+present but not an object, or the content function `redactContent` fails — which happens exactly
+(`redactContent_error_iff`, both directions) where the rules keep `third_party_invite.signed`, i.e.
+v11, on a non-object `third_party_invite` in an `m.room.member` content. `redact_error_iff_input`
+below puts the two together into a condition on the input alone. -/
 theorem redact_error_iff (r : Rules) (o : Obj) (because : Option Obj) :
     (∃ e, redact r o because = .error e) ↔
       (Obj.get o (bs "type") = none) ∨
@@ -260,8 +264,9 @@ theorem redact_error_iff (r : Rules) (o : Obj) (because : Option Obj) :
     | _ => simp
 
 /-- `redactContent` fails only on a non-object `third_party_invite` of an `m.room.member` content
-under rules that keep `third_party_invite.signed`. -/
-theorem redactContent_error_iff (r : Rules) (ty : Str) (c : Obj) (e : Err)
+under rules that keep `third_party_invite.signed` (one direction; `redactContent_error_iff` below has
+both). -/
+theorem redactContent_error_only (r : Rules) (ty : Str) (c : Obj) (e : Err)
     (h : redactContent r ty c = .error e) :
     e = .tpiNotObject ∧ ty = bs "m.room.member" ∧ r.keepMemberTpiSigned = true ∧
       ∃ x, (bs "third_party_invite", x) ∈ c ∧ ∀ t, x ≠ .obj t := by
@@ -314,6 +319,104 @@ theorem redactContent_error_iff (r : Rules) (ty : Str) (c : Obj) (e : Err)
     all_goals simp only [Retained.apply, applySome_byKey] at h
     all_goals cases h
 
+/-- The only error the member-content retain function can return is `tpiNotObject`, and it returns
+it exactly on a non-object `third_party_invite` under rules that keep `third_party_invite.signed`. -/
+theorem memberKey_error_iff (r : Rules) (k : Str) (x : JVal) (e : Err) :
+    memberKey r k x = .error e ↔
+      e = .tpiNotObject ∧ k = bs "third_party_invite" ∧ r.keepMemberTpiSigned = true ∧ ∀ t, x ≠ .obj t := by
+  constructor
+  · intro hf
+    simp only [memberKey] at hf
+    split at hf
+    · cases hf
+    · split at hf
+      · cases hf
+      · split at hf
+        · rename_i hk
+          obtain ⟨rfl, hr⟩ := hk
+          split at hf
+          · cases hf
+          · rename_i hno
+            injection hf with hf
+            exact ⟨hf.symm, rfl, hr, fun t ht => hno t ht⟩
+        · cases hf
+  · rintro ⟨rfl, rfl, hr, hno⟩
+    have h1 : bs "third_party_invite" ≠ bs "membership" := by decide
+    have h2 : bs "third_party_invite" ≠ bs "join_authorised_via_users_server" := by decide
+    cases x with
+    | obj t => exact absurd rfl (hno t)
+    | _ => simp only [memberKey, h1, h2, if_false, hr, and_self, if_true]
+
+/-- **`redactContent` fails exactly** on an `m.room.member` content with a non-object
+`third_party_invite` entry under rules that keep `third_party_invite.signed` (room version 11), and
+the error is then `tpiNotObject`. Both directions. -/
+theorem redactContent_error_iff (r : Rules) (ty : Str) (c : Obj) (e : Err) :
+    redactContent r ty c = .error e ↔
+      e = .tpiNotObject ∧ ty = bs "m.room.member" ∧ r.keepMemberTpiSigned = true ∧
+        ∃ x, (bs "third_party_invite", x) ∈ c ∧ ∀ t, x ≠ .obj t := by
+  constructor
+  · exact redactContent_error_only r ty c e
+  · rintro ⟨rfl, rfl, hr, x, hx, hno⟩
+    unfold redactContent retainedContentKeys
+    simp only [if_true, Retained.apply]
+    induction c with
+    | nil => simp at hx
+    | cons p t ih =>
+      obtain ⟨k, y⟩ := p
+      simp only [applySome]
+      cases hf : memberKey r k y with
+      | error e' =>
+        rw [((memberKey_error_iff r k y e').mp hf).1]
+      | ok ov =>
+        have hxt : (bs "third_party_invite", x) ∈ t := by
+          rcases List.mem_cons.mp hx with heq | hmem
+          · injection heq with h1 h2
+            subst h1; subst h2
+            rw [(memberKey_error_iff r _ x .tpiNotObject).mpr ⟨rfl, rfl, hr, hno⟩] at hf
+            cases hf
+          · exact hmem
+        cases ov with
+        | none => exact ih hxt
+        | some v' => simp only [ih hxt]
+
+/-- **Errors, said on the input alone** (no reference to the content function): `redact` fails iff
+`type` is missing or not a string, or `content` is present and not an object, or — only under rules
+that keep `third_party_invite.signed` — the event is an `m.room.member` whose content has a
+non-object `third_party_invite` entry. In every other case it succeeds. -/
+theorem redact_error_iff_input (r : Rules) (o : Obj) (because : Option Obj) :
+    (∃ e, redact r o because = .error e) ↔
+      (Obj.get o (bs "type") = none) ∨
+      (∃ x, Obj.get o (bs "type") = some x ∧ ∀ s, x ≠ .str s) ∨
+      (∃ ty x, Obj.get o (bs "type") = some (.str ty) ∧ Obj.get o (bs "content") = some x ∧
+        ((∀ c, x ≠ .obj c) ∨
+         ∃ c, x = .obj c ∧ ty = bs "m.room.member" ∧ r.keepMemberTpiSigned = true ∧
+           ∃ y, (bs "third_party_invite", y) ∈ c ∧ ∀ t, y ≠ .obj t)) := by
+  rw [redact_error_iff]
+  constructor
+  · rintro (h | h | ⟨ty, x, h1, h2, h3 | ⟨c, e, rfl, he⟩⟩)
+    · exact Or.inl h
+    · exact Or.inr (Or.inl h)
+    · exact Or.inr (Or.inr ⟨ty, x, h1, h2, Or.inl h3⟩)
+    · obtain ⟨_, hm, hr, hy⟩ := (redactContent_error_iff r ty c e).mp he
+      exact Or.inr (Or.inr ⟨ty, _, h1, h2, Or.inr ⟨c, rfl, hm, hr, hy⟩⟩)
+  · rintro (h | h | ⟨ty, x, h1, h2, h3 | ⟨c, rfl, hm, hr, hy⟩⟩)
+    · exact Or.inl h
+    · exact Or.inr (Or.inl h)
+    · exact Or.inr (Or.inr ⟨ty, x, h1, h2, Or.inl h3⟩)
+    · exact Or.inr (Or.inr ⟨ty, _, h1, h2, Or.inr ⟨c, .tpiNotObject, rfl,
+        (redactContent_error_iff r ty c .tpiNotObject).mpr ⟨rfl, hm, hr, hy⟩⟩⟩)
+
+/-- The error case is reachable: a v11 member event whose `third_party_invite` is a string. -/
+example :
+    redact (rulesOf 11)
+      [(bs "content", .obj [(bs "membership", .str (bs "invite")), (bs "third_party_invite", .str (bs "x"))]),
+       (bs "type", .str (bs "m.room.member"))] none = .error .tpiNotObject ∧
+    redact (rulesOf 10)
+      [(bs "content", .obj [(bs "membership", .str (bs "invite")), (bs "third_party_invite", .str (bs "x"))]),
+       (bs "type", .str (bs "m.room.member"))] none
+      = .ok [(bs "content", .obj [(bs "membership", .str (bs "invite"))]), (bs "type", .str (bs "m.room.member"))] :=
+  ⟨rfl, rfl⟩
+
 /-- Redaction keeps the `BTreeMap` invariant (strictly ascending keys). -/
 theorem redact_sorted (r : Rules) (o res : Obj) (hs : Obj.Sorted o) (h : redact r o none = .ok res) :
     Obj.Sorted res := by
@@ -355,6 +458,9 @@ example :
 #print axioms redact_idempotent
 #print axioms redact_because
 #print axioms redact_error_iff
+#print axioms redactContent_error_only
+#print axioms memberKey_error_iff
 #print axioms redactContent_error_iff
+#print axioms redact_error_iff_input
 #print axioms redact_sorted
 end Ruma.Props.C04
